@@ -323,8 +323,9 @@ func run2(c *hlib.Ctx) {
 		st = &stub2{sphReply: c.Rng.Intn(2) == 0}
 		tc = model2d.TransformCollider(t, st)
 		got1 := tc.CircleCollision(ctr, rad)
-		c.Emit(fmt.Sprintf("c05 sphin2 %s %s %s %s", x.tokens(2), p2s(ctr), rs(rad), bstr(st.sphReply)),
-			p2s(st.sphC[0])+" "+rs(st.sphR[0])+" "+bstr(got1))
+		if seen, ok := sphSeen2(c, st, []*xf{x}, ctr, rad, got1); ok {
+			c.Emit(fmt.Sprintf("c05 sphin2 %s %s %s %s", x.tokens(2), p2s(ctr), rs(rad), bstr(st.sphReply)), seen)
+		}
 		lo, hi := tc.Min(), tc.Max()
 		c.Emit(fmt.Sprintf("c05 cbounds2 %s %s %s", x.tokens(2), p2s(st.Min()), p2s(st.Max())), p2s(lo)+" "+p2s(hi))
 	}
@@ -345,6 +346,46 @@ func run2(c *hlib.Ctx) {
 		col, cname := g.collider2()
 		g.emitColl2(x, col, cname, g.ray2(col))
 	}
+}
+
+// circleOutside2: see sphereOutside3.
+func (g *gen) circleOutside2(col model2d.Collider) (model2d.Coord, float64) {
+	lo, hi := col.Min(), col.Max()
+	q := g.inBox2(lo, hi).Array()
+	d := math.Ldexp(1, g.c.Rng.Intn(6)-3)
+	ax := g.c.Rng.Intn(2)
+	if g.c.Rng.Intn(2) == 0 {
+		q[ax] = hi.Array()[ax] + d
+	} else {
+		q[ax] = lo.Array()[ax] - d
+	}
+	if g.c.Rng.Intn(4) == 0 { // off the second side too (corner region)
+		q[1-ax] = hi.Array()[1-ax] + d/2
+	}
+	rad := d * []float64{0.5, 1, 1.125, 1.25, 1.5, 2, 3, 4}[g.c.Rng.Intn(8)]
+	return model2d.NewCoordArray(q), rad
+}
+
+// statCircle2: see statSphere3.
+func (g *gen) statCircle2(kind string, col model2d.Collider, q model2d.Coord, rad, orad float64) {
+	boxDist := q.Dist(q.Max(col.Min()).Min(col.Max()))
+	if boxDist == 0 || rad == 0 {
+		return
+	}
+	cls := "same-scale"
+	if orad > rad {
+		cls = "enlarging"
+	} else if orad < rad {
+		cls = "shrinking"
+	}
+	reach := "missing-box"
+	if boxDist <= rad {
+		reach = "reaching-box"
+		if boxDist*orad/rad > rad {
+			reach = "reaching-box.mixed-units-would-miss"
+		}
+	}
+	g.c.Stat(kind+".outside."+cls+"."+reach, 1)
 }
 
 // emitColl2: one transformed-collider case on a real collider (see run2).
@@ -399,7 +440,11 @@ func (g *gen) emitColl2(x *xf, col model2d.Collider, cname string, ir model2d.Ra
 	// distance between the images of q and of a point r away from it.
 	q := g.inBox2(col.Min().AddScalar(-1), col.Max().AddScalar(1))
 	rad := math.Abs(g.dy())
+	if g.c.Rng.Intn(2) == 0 {
+		q, rad = g.circleOutside2(col)
+	}
 	orad := t.Apply(q.Add(model2d.X(rad))).Dist(t.Apply(q))
+	g.statCircle2("sphc2", col, q, rad, orad)
 	want := col.CircleCollision(q, rad)
 	c.Stat("sphc2.inner."+bstr(want), 1)
 	c.Emit(fmt.Sprintf("c05 sphc2 %s %s %s %s %s %s", x.tokens(2), p2s(t.Apply(q)), rs(orad), p2s(q), rs(rad), bstr(want)),
